@@ -85,8 +85,9 @@ type c01Step struct {
 	Spec      RespSpec `json:"response"`
 	ArtSign   bool     `json:"artifact_signed,omitempty"`
 	ArtKey    int      `json:"artifact_key,omitempty"`
-	InheritNS bool     `json:"inherit_ns,omitempty"`   // plaintext assertions rely on a namespace declaration of the Response element
-	Prefix    int      `json:"prefix_style,omitempty"` // assertions use: 0 the saml: prefix, 1 the default namespace, 2 the saml2: prefix
+	EncID     bool     `json:"subject_identified_by_encrypted_id,omitempty"` // the IdP identifies the subject by a saml:EncryptedID (the NameID encrypted to the SP) instead of a NameID in clear
+	InheritNS bool     `json:"inherit_ns,omitempty"`                         // plaintext assertions rely on a namespace declaration of the Response element
+	Prefix    int      `json:"prefix_style,omitempty"`                       // assertions use: 0 the saml: prefix, 1 the default namespace, 2 the saml2: prefix
 	Ops       []c01Op  `json:"ops"`
 	Retrust   string   `json:"retrust,omitempty"` // before this delivery the SP's IdP metadata is replaced (key roll-over / retirement) by this trust configuration
 }
@@ -135,6 +136,9 @@ func c01GenOp(g *Rng, st *c01Step, k c01Knobs) c01Op {
 	fld := func() string { return Pick(g, "nameid", "nameid", "attr", "issuer", "audience") }
 	switch g.PickW(8, 8, 9, 3, 12, 10, 7, 10, 8, 5, 9, 9, 8, 4, 5, 4, 6) {
 	case 16:
+		if g.Bool(0.4) {
+			return c01Op{Op: "plant-encrypted", Target: asrt(), Variant: g.Intn(4)}
+		}
 		return c01Op{Op: "declare-unused-ns", Target: asrt(), Variant: g.Intn(len(c01NSDecls) + 3)}
 	case 0:
 		return c01Op{Op: "strip-sig", Target: anyT()}
@@ -242,6 +246,7 @@ func genTamper(g *Rng, tier string) *Plan {
 		}
 		st.ViaHTTP = st.Entry == "artifact" && g.Bool(0.5)
 		st.InheritNS = g.Bool(0.2)
+		st.EncID = g.Bool(0.12)
 		st.Prefix = g.PickW(6, 2, 2)
 		nops := g.PickW(20, 35, 30, 15)
 		if st.Base == "untrusted" {
@@ -250,6 +255,10 @@ func genTamper(g *Rng, tier string) *Plan {
 		st.Ops = []c01Op{}
 		for q := 0; q < nops; q++ {
 			st.Ops = append(st.Ops, c01GenOp(g, &st, k))
+		}
+		if st.EncID && g.Bool(0.6) {
+			// an SP that reads EncryptedIDs must read the signed one
+			st.Ops = append(st.Ops, c01Op{Op: "plant-encrypted", Target: "A0", Variant: g.Intn(4)})
 		}
 		p.Steps = append(p.Steps, mustJSON(st))
 	}
@@ -261,6 +270,7 @@ func genTamper(g *Rng, tier string) *Plan {
 type c01Genuine struct {
 	Label string
 	A     *saml.Assertion
+	Alt   *saml.Assertion // a second reading of the same signed content (EncryptedID decrypted), nil if there is none
 }
 
 type c01Unit struct {
@@ -360,8 +370,8 @@ func c01NormInto(b *strings.Builder, e *etree.Element, skip *etree.Element, ownS
 			text += v.Data
 		case *etree.Comment:
 		case *etree.Element:
-			if v == skip || (ownSig && c01IsDsig(v, "KeyInfo")) {
-				continue
+			if v == skip || (ownSig && !c01IsDsig(v, "SignedInfo") && !c01IsDsig(v, "SignatureValue")) {
+				continue // of a Signature's own children the signature commits to SignedInfo and SignatureValue; KeyInfo, Object, ... are anybody's
 			}
 			flush()
 			c01NormInto(b, v, nil, false)
@@ -576,6 +586,17 @@ func (w *c01World) issue(st *c01Step, si int, t0 time.Time) *c01Msg {
 	for i := range s.Assertions {
 		a := &s.Assertions[i]
 		ael := a.toAssertion(t0).Element()
+		if st.EncID {
+			if sub := c01ChildByTag(ael, "Subject"); sub != nil {
+				if nid := c01ChildByTag(sub, "NameID"); nid != nil {
+					nid.CreateAttr("xmlns:saml", c01AsrtNS)
+					eid := encryptElAs(nid, rsaKeys[c01SPKey], "saml:EncryptedID")
+					idx := nid.Index()
+					sub.RemoveChild(nid)
+					sub.InsertChildAt(idx, eid)
+				}
+			}
+		}
 		c01Restyle(ael, st.Prefix)
 		if a.Sign {
 			ael = placeSignature(signEnveloped(rsaKeys[a.SignKey], "", ael))
@@ -638,7 +659,15 @@ func (w *c01World) issue(st *c01Step, si int, t0 time.Time) *c01Msg {
 			idx = append(idx, -1)
 			continue
 		}
-		w.genuine = append(w.genuine, c01Genuine{Label: fmt.Sprintf("s%da%d", si, i), A: a.toAssertion(t0)})
+		ga := a.toAssertion(t0)
+		var alt *saml.Assertion
+		if st.EncID && ga.Subject != nil && ga.Subject.NameID != nil {
+			// what was signed identifies the subject by an EncryptedID: a library that does not read it hands over no NameID, one that
+			// decrypts it hands over the identifier inside - both are what the signature covers
+			alt = a.toAssertion(t0)
+			ga.Subject.NameID = nil
+		}
+		w.genuine = append(w.genuine, c01Genuine{Label: fmt.Sprintf("s%da%d", si, i), A: ga, Alt: alt})
 		idx = append(idx, len(w.genuine)-1)
 	}
 	var all []int
@@ -1421,6 +1450,52 @@ func (m *c01Msg) apply(op c01Op) bool {
 		}
 		return true
 
+	case "plant-encrypted":
+		// Mallory encrypts an identifier or an attribute of her choosing to the SP's public certificate and plants it where no
+		// signature covers it: anybody can encrypt to a public key; only what a trusted signature covers counts
+		nid := etree.NewElement("saml:NameID")
+		nid.CreateAttr("xmlns:saml", c01AsrtNS)
+		nid.CreateAttr("Format", "urn:oasis:names:tc:SAML:1.1:nameid-format:emailAddress")
+		evil := marker("evil", m.w.evil)
+		m.w.evil++
+		nid.SetText(evil)
+		at := etree.NewElement("saml:Attribute")
+		at.CreateAttr("xmlns:saml", c01AsrtNS)
+		at.CreateAttr("Name", "role")
+		at.CreateElement("saml:AttributeValue").SetText("admin-" + evil)
+		switch op.Variant {
+		case 0, 1:
+			// a Subject with an EncryptedID early in the document (protocol extensions of the unsigned Response / a Status detail)
+			ext := etree.NewElement("samlp:Extensions")
+			ext.CreateAttr("xmlns:samlp", "urn:oasis:names:tc:SAML:2.0:protocol")
+			ext.CreateAttr("xmlns:saml", c01AsrtNS)
+			ext.CreateElement("saml:Subject").AddChild(encryptElAs(nid, rsaKeys[c01SPKey], "saml:EncryptedID"))
+			if op.Variant == 0 {
+				m.vis.InsertChildAt(0, ext)
+			} else {
+				m.vis.AddChild(ext)
+			}
+			return true
+		default:
+			// inside the assertion's own Signature element (which the enveloped-signature transform takes out before digesting)
+			a := m.plain(op.Target)
+			if a == nil {
+				return false
+			}
+			sigs := c01Sigs(a)
+			if len(sigs) == 0 {
+				return false
+			}
+			obj := sigs[0].CreateElement(sigs[0].Space + ":Object")
+			obj.CreateAttr("xmlns:saml", c01AsrtNS)
+			if op.Variant == 2 {
+				obj.AddChild(encryptElAs(at, rsaKeys[c01SPKey], "saml:EncryptedAttribute"))
+			} else {
+				obj.CreateElement("saml:Subject").AddChild(encryptElAs(nid, rsaKeys[c01SPKey], "saml:EncryptedID"))
+			}
+			return true
+		}
+
 	case "declare-unused-ns":
 		// exclusive canonicalisation leaves declarations nobody uses out of the signed octets: every signature stands, nothing the
 		// message says changes
@@ -1931,7 +2006,7 @@ func execTamper(t *testing.T, p *Plan) *Result {
 		} else if as != nil && err == nil {
 			got := c01Content(as)
 			for gi := range w.genuine {
-				if c01Content(w.genuine[gi].A) == got {
+				if c01Content(w.genuine[gi].A) == got || (w.genuine[gi].Alt != nil && c01Content(w.genuine[gi].Alt) == got) {
 					if cov[gi] {
 						matched = gi
 						break
